@@ -88,7 +88,7 @@ def bstr_from_py(s): return BStr(Buf([ord(c) for c in s]))
 
 def const_str(vm, s):
     if getattr(vm, 'str_mode', 'opaque') == 'bounded': return bstr_from_py(s)
-    return SymStr(z3.StringVal(s))
+    return SymStr(zs(s))
 
 
 def to_sym(v):
@@ -97,7 +97,7 @@ def to_sym(v):
     if isinstance(v, BStr):
         c = v.concrete()
         if c is None: raise Unmodelled('symbolic bounded string used as an opaque string')
-        return z3.StringVal(c)
+        return zs(c)
     raise Unmodelled(f'not a string: {v!r}')
 
 
@@ -106,7 +106,7 @@ def str_len(vm, v):
     if isinstance(v, SliceRef): return v.end - v.start
     if isinstance(v, SymStr):
         t = z3.simplify(v.term)
-        if z3.is_string_value(t): return len(t.as_string().encode('utf-8'))
+        if z3.is_string_value(t): return len(zstr(t).encode('utf-8'))
         raise Unmodelled('byte length of an opaque symbolic string')
     raise Unmodelled(f'len of {v!r}')
 
@@ -114,7 +114,7 @@ def str_len(vm, v):
 def str_is_empty(vm, v):
     if isinstance(v, BStr): return v.nbytes() == 0
     t = z3.simplify(v.term)
-    if z3.is_string_value(t): return len(t.as_string()) == 0
+    if z3.is_string_value(t): return len(zstr(t)) == 0
     return z3.Length(v.term) == 0
 
 
